@@ -44,6 +44,7 @@ type KnownFinding struct {
 
 // Report collects the obligations of one property run.
 type Report struct {
+	ScratchOut  string // when set, Finish writes evidence and replay files under this directory instead of the verification directory
 	Property    string
 	Tier        string
 	Prog        *Prog
@@ -180,6 +181,10 @@ func (r *Report) Finish(verifDir string, seed int, cmdline string) int {
 		r.Undecided("infra", "known-findings", "", err.Error())
 	}
 	r.ApplyFloors()
+	if r.ScratchOut != "" {
+		// an overlay run decides a variant of the tree, never the tree itself: its evidence and replay files go elsewhere
+		verifDir = r.ScratchOut
+	}
 	outDir := filepath.Join(verifDir, "out", r.Property)
 	os.MkdirAll(outDir, 0o755)
 	nViol, nKnown, nDis := 0, 0, 0
